@@ -63,7 +63,7 @@ TCall == /\ Ev.k = "call" /\ ~IsNopCall
                    ELSE IF Ev.x.op = "poll" THEN [cur EXCEPT ![P] = [op |-> "poll", v |-> Ev.x.s, c |-> l, ch |-> FALSE]]
                    ELSE IF Ev.x.op \in {"create", "create_if_room"} THEN [cur EXCEPT ![P] = [op |-> "create", v |-> 0, c |-> l, ch |-> FALSE]]
                    ELSE IF Ev.x.op = "drop_stream" THEN [cur EXCEPT ![P] = [op |-> "drop", v |-> Ev.x.s, c |-> l, ch |-> FALSE]]
-                   ELSE IF Ev.x.op = "running" THEN [cur EXCEPT ![P] = [op |-> "running", v |-> 0, c |-> l, ch |-> FALSE]]
+                   ELSE IF Ev.x.op \in {"running", "close"} THEN [cur EXCEPT ![P] = [op |-> Ev.x.op, v |-> 0, c |-> l, ch |-> FALSE]]
                    ELSE cur
          /\ lis' = IF Ev.x.op = "drop_stream" /\ Ev.x.s \in Ls /\ lis[Ev.x.s].st = "live" THEN [lis EXCEPT ![Ev.x.s].dc = l] ELSE lis
          /\ churn' = IF Ev.x.op \in {"create", "create_if_room", "drop_stream"} THEN churn + 1 ELSE churn
@@ -128,7 +128,7 @@ TRet ==
             /\ UNCHANGED <<snd, adr, held, resv>>
        ELSE /\ resv' = IF Ev.fn = "reserve" /\ Ev.x.ok THEN resv + 1 ELSE IF Ev.fn = "cancel_reserved" /\ Ev.x.ok THEN resv - 1 ELSE resv
             /\ held' = IF Ev.fn = "release" /\ Ev.x.ok THEN held - 1 ELSE IF Ev.fn = "release_all" THEN held - Ev.x.v ELSE held
-            /\ cur' = IF cur[P].op = "running" THEN [cur EXCEPT ![P] = NoCur] ELSE cur
+            /\ cur' = IF cur[P].op \in {"running", "close"} THEN [cur EXCEPT ![P] = NoCur] ELSE cur
             /\ UNCHANGED <<snd, lis, adr, churn>>
     /\ lp' = IF cur[P].op = "poll" THEN [lp EXCEPT ![P] = <<cur[P].c, l>>] ELSE lp
     /\ UNCHANGED <<parked, drv, cancelled, rw>>
@@ -225,6 +225,11 @@ EvBadM == IF Ev.k = "ret" /\ ~IsNopRet /\ cur[P].op = "poll" /\ Ev.x.r = "item" 
           ELSE IF On("InvRunningCount") /\ Ev.k = "ret" /\ Ev.fn = "running" /\ cur[P].op = "running" /\ l = cur[P].c + 1 /\ churn = 0 /\ Ev.x.v # LiveCount THEN "InvRunningCount"
           ELSE IF On("InvRejectedSetterUninvoked") /\ Ev.k = "ret" /\ Ev.fn \in {"send_with", "send_async"} /\ ~Ev.x.ok /\ Ev.x.inv /\ (Ev.fn = "send_with" \/ Ev.x.done)
           THEN "InvRejectedSetterUninvoked"
+          \* graceful close (unbounded timeout) returns only after every event accepted before the call was yielded by every listener whose
+          \* lifetime covers it, with every stream ended and dropped and the channel no longer open (C06)
+          ELSE IF On("InvCloseWaits") /\ Ev.k = "ret" /\ Ev.fn = "close" /\ cur[P].op = "close"
+                  /\ (\E i \in Accepted : snd[i].r < cur[P].c /\ \E s \in Ls : Within(i, s) /\ lis[s].how # "old" /\ snd[i].v \notin Range(lis[s].del)) THEN "InvCloseWaitsForBufferedEvents"
+          ELSE IF On("InvClosedAfterwards") /\ Ev.k = "ret" /\ Ev.fn = "close" /\ (Ev.x.v # 0 \/ Ev.x.running # 0 \/ Ev.x.open) THEN "InvClosedAfterwards"
           ELSE IF Ev.k = "final" THEN FinalBad(Ev.x)
           ELSE IF On("NoPanic") THEN EvBad ELSE ""
 
